@@ -80,7 +80,11 @@ func newUniverseNamed(repos, tags []string) *universe {
 	zero.Size = 0
 	mzero := uniManifest{"mzero", mtImage, img(zero, nil, nil)}
 	miOpaque := uniManifest{"mi-as-opaque", mtOpaque, mi.Data}
-	u.Manifests = []uniManifest{mo, mi, mis, mx, mxb, mbad, mmiss, mzero, miOpaque}
+	// a complete valid image manifest followed by trailing bytes: malformed JSON as a whole
+	mtrail := uniManifest{"mi-trailing-garbage", mtImage, append(append([]byte(nil), mi.Data...), "}{"...)}
+	// a legal but non-canonical media type: mixed case and a parameter
+	mparam := uniManifest{"mparam", "application/vnd.Example.Thing.v1+json; version=2", []byte(`{"p":1}`)}
+	u.Manifests = []uniManifest{mo, mi, mis, mx, mxb, mbad, mmiss, mzero, miOpaque, mtrail, mparam}
 	return u
 }
 
@@ -119,6 +123,9 @@ func (o Op) String() string {
 	case "DeleteTag":
 		return fmt.Sprintf("DeleteTag(%s,%s)", o.Repo, o.Tag)
 	case "Start":
+		if o.Off == "id" {
+			return fmt.Sprintf("StartWithID(%s,%q)", o.Repo, o.Piece)
+		}
 		return fmt.Sprintf("Start(%s)", o.Repo)
 	case "Write":
 		return fmt.Sprintf("Write(h%d,%q)", o.H, o.Piece)
@@ -161,6 +168,7 @@ type alphabetConfig struct {
 	UntaggedToo bool
 	Tags        []string // nil = all tags of the universe
 	FinishedOps bool     // also resume/write/cancel on committed or cancelled upload sessions
+	ExplicitIDs bool     // also start upload sessions under one caller-chosen ID in each repository
 	BadNames    []string // extra (hostile) repository names used for pushes, mounts and deletes
 }
 
